@@ -72,7 +72,9 @@ static void check_reads_m (MEMF m, const char *fn, int format, int ch, int rate,
 					if (r > 0 && memcmp (buf, ref + p * ch * ts, (size_t) (r < exp ? r : exp) * ts) != 0)
 						vh_viol (vh_key ("C05|read-data|%s|%s|%s", fn, (KB > 1 && p + r / ch > got - got % KB) ? "in-last-block" : "before-last-block", ((t + framewise) & 1) ? "noise" : "two-tone"), "pos %ld of %ld (block %d), %ld items (%s): data differs from the sequential reference", p, got, KB, r, vh_tname [t]) ;
 					/* the part of the caller's buffer beyond r: untouched or zero-filled; at end of data (r == 0) it must be zero-filled */
-					{	long z = 0, c5 = 0, other = 0 ; for (a = r * ts ; a < k * ts ; a++) { if (buf [a] == 0) z++ ; else if (buf [a] == 0xA5) c5++ ; else other++ ; }
+					{	long z = 0, c5 = 0, other = 0, undef = vh_undefined_bytes (buf + r * ts, (size_t) (k - r) * ts) ;
+						if (undef) vh_viol (vh_key ("C05|read-tail-undefined|%s", fn), "pos %ld asked %ld got %ld: %ld bytes beyond the returned items were overwritten with values memcheck calls undefined", p, k, r, undef) ;
+						for (a = r * ts ; a < k * ts ; a++) { if (buf [a] == 0) z++ ; else if (buf [a] == 0xA5) c5++ ; else other++ ; }
 						if (other) vh_viol (vh_key ("C05|read-tail-garbage|%s%s", fn, onebyte_odd ? "|trailing-bytes-shorter-than-a-frame,request-past-end" : ""), "pos %ld asked %ld got %ld: %ld bytes beyond the returned items hold neither the canary nor zero", p, k, r, other) ;
 						if (r == 0 && (c5 || other)) vh_viol (vh_key ("C05|eof-not-zero-filled|%s", fn), "read at end of data returned 0 but left %ld of %ld bytes unzeroed", c5 + other, k * ts) ;
 						if (r == 0) vh_stat ("eof_reads_checked", 1) ; else if (r < k) vh_stat (z ? "partial_tail_zeroed" : "partial_tail_untouched", 1) ;
